@@ -56,6 +56,10 @@ def cases(tier, seed):
                         for h in (G.HEADS if (tier == 'thorough' or n == 2) else G.HEADS[:1]):
                             progs.append({'dim': dim, 'cin': 3, 'size': G._size(dim),
                                           'stages': pre + [{'op': 'concat', 'members': list(mem)}] + post, 'head': dict(h)})
+                            if n == 2 and len(post) <= 1 and h['kind'] == 'flatlin':
+                                # the channel axis spelled with a negative index
+                                progs.append({'dim': dim, 'cin': 3, 'size': G._size(dim),
+                                              'stages': pre + [{'op': 'concat', 'members': list(mem), 'negc': True}] + post, 'head': dict(h)})
     # the time-axis concat spelled with a negative index
     for p in G.gen_base(2):
         for i, st in enumerate(p['stages']):
